@@ -1038,35 +1038,9 @@ func (w *c18World) lengthGuards(fi *FuncInfo) {
 			}
 		}
 	}
-	a1ok := true
-	if paramObj != nil {
-		ast.Inspect(fi.Decl.Body, func(n ast.Node) bool {
-			as, ok := n.(*ast.AssignStmt)
-			if !ok {
-				return true
-			}
-			for i, l := range as.Lhs {
-				if rootObj(info, l) != paramObj {
-					continue
-				}
-				good := false
-				if id, ok := unparen(l).(*ast.Ident); ok && info.ObjectOf(id) == paramObj && len(as.Rhs) == len(as.Lhs) {
-					if cl, ok := unparen(as.Rhs[i]).(*ast.CompositeLit); ok {
-						good = true
-						for _, el := range cl.Elts {
-							if inner, ok := el.(*ast.CompositeLit); !ok || len(inner.Elts) == 0 {
-								good = false
-							}
-						}
-					}
-				}
-				if !good {
-					a1ok = false
-				}
-			}
-			return true
-		})
-	}
+	// A1 holds for the parameter list and for every list derived from it without touching its elements: local
+	// aliases, sub-slices, and literals all of whose elements are non-empty literals (c18_a1.go)
+	isA1List := c18A1Lists(info, fi.Decl.Body, paramObj)
 	// non-negative variables: every assignment is `= e`/`:= e`/`+= e` with e >= 0, `++`, or a range key, where e >= 0 is
 	// shown by: e is a constant >= 0; e is v + c with c >= 0 and v itself such a variable; or the guards in force at
 	// the assignment imply v + c >= 0 (`if n > 0 { i += n - 1 }`).
@@ -1311,7 +1285,7 @@ func (w *c18World) lengthGuards(fi *FuncInfo) {
 		}
 		switch t := unparen(e).(type) {
 		case *ast.IndexExpr:
-			return rootObj(info, t.X) == paramObj && info.TypeOf(t.X).String() == "[][]int"
+			return info.TypeOf(t.X).String() == "[][]int" && isA1List(t.X)
 		case *ast.Ident:
 			o := info.ObjectOf(t)
 			if o == nil || o == paramObj {
@@ -1326,7 +1300,7 @@ func (w *c18World) lengthGuards(fi *FuncInfo) {
 				switch r := n.(type) {
 				case *ast.RangeStmt:
 					if id, ok := r.Value.(*ast.Ident); ok && info.ObjectOf(id) == o && r.Tok == token.DEFINE {
-						if rootObj(info, r.X) == paramObj && info.TypeOf(r.X).String() == "[][]int" {
+						if info.TypeOf(r.X).String() == "[][]int" && isA1List(r.X) {
 							isRangeVal = true
 						} else {
 							other = true
@@ -1513,7 +1487,7 @@ func (w *c18World) lengthGuards(fi *FuncInfo) {
 		if why == "" && need == 1 && t.ID == "" && splitLen1(X) {
 			why = "strings.Split with a non-empty separator returns at least one element"
 		}
-		if why == "" && need == 1 && t.ID == "" && paramObj != nil && a1ok && info.TypeOf(X).String() == "[]int" && elemOfParam(X, 0) {
+		if why == "" && need == 1 && t.ID == "" && info.TypeOf(X).String() == "[]int" && elemOfParam(X, 0) {
 			why = "assumption A1 (every parameter has at least one sub-parameter)"
 		}
 		if why != "" {
